@@ -104,8 +104,18 @@ func execAliasHist(toks []string) string {
 	if err != nil {
 		return "readerr"
 	}
-	fp := fingerprint(m)
+	// writing or serialising the retained message must not change it either (header included)
+	before := fmt.Sprintf("%+v|%s", *m.Header, m.String())
+	var sink bytes.Buffer
+	_, _ = m.Serialize()
+	_, _ = m.WriteTo(&sink)
 	var outs []string
+	if fmt.Sprintf("%+v|%s", *m.Header, m.String()) == before {
+		outs = append(outs, "w:same")
+	} else {
+		outs = append(outs, "w:changed")
+	}
+	fp := fingerprint(m)
 	for i, l := range strings.Split(ls, ",") {
 		lb, err := hex.DecodeString(l)
 		if err != nil || len(lb) == 0 {
@@ -141,9 +151,6 @@ func execAliasHist(toks []string) string {
 		} else {
 			outs = append(outs, "changed")
 		}
-	}
-	if len(outs) == 0 {
-		return "none"
 	}
 	return strings.Join(outs, " ")
 }
